@@ -255,3 +255,37 @@ def slice_routes(w, route, plain):
         w.claim('exception is an API error', is_error(got))
     else:
         w.claim('over-read never returns data', r >= n)
+
+
+
+@obligation('C07.depth_levels', 'C07', cases=[{'kind': k, 'mask': m, 'extra': x} for k, m in (('pruned', 1), ('pruned', 3), ('pruned', 2), ('plain', 1), ('plain', 5))
+                                              for x in (0, 1)],
+            fuc=['pytoniq_core.boc.cell.Cell.__init__', 'pytoniq_core.boc.cell.Cell.calculate_hashes', 'pytoniq_core.boc.builder.Builder.end_cell'],
+            descr='the depth limit holds at EVERY level: an ordinary cell built by Builder.end_cell over a child of non-zero level (a pruned '
+                  'branch recording symbolic depths, or any cell with per-level depths) plus 0/1 shallow siblings is refused IFF the depth '
+                  'at some level would reach 1024 - in particular when only the LOWER-level depth (the recorded depth of the pruned subtree) '
+                  'does; otherwise every get_depth(l) is below 1024')
+def depth_levels(w, kind, mask, extra):
+    from pytoniq_core.boc.builder import Builder
+    from pytoniq_core.boc.cell import CellError
+    from harness.common import abstract_child, abstract_cell
+    from vf.spec import cell as SC
+    child, obs = abstract_child(w, 'K', kind, mask)
+    b = Builder().store_uint(5, 8).store_ref(child)
+    if extra:
+        sib = abstract_cell(w, 'sib')
+        w.assume(sib._depths[0] <= 3)
+        b.store_ref(sib)
+    k, c = call(b.end_cell)
+    too_deep = False
+    for l in range(4):
+        too_deep = w.Or(too_deep, obs.depth_at(l) + 1 >= 1024)
+    if k == 'ok':
+        w.cover('built')
+        w.claim('built only if no level reaches depth 1024', w.Not(too_deep))
+        for l in range(4):
+            w.claim(f'get_depth({l}) < 1024', c.get_depth(l) < 1024)
+    else:
+        w.cover('refused')
+        w.claim('refused only if some level would reach depth 1024', too_deep)
+        w.claim('refused with CellError', isinstance(c, CellError))
